@@ -24,3 +24,14 @@ Proof. induction l as [|x l IH]; cbn; [reflexivity|]. now rewrite IH. Qed.
 
 Lemma skipn_app_exact {A} (l r : list A) : skipn (length l) (l ++ r) = r.
 Proof. induction l as [|x l IH]; cbn; [reflexivity|]. exact IH. Qed.
+
+Lemma Forall_firstn' {A} (P : A -> Prop) n (l : list A) : Forall P l -> Forall P (firstn n l).
+Proof.
+  revert l; induction n as [|n IH]; intros l H; cbn; [constructor|].
+  destruct l as [|x l]; [constructor|]. inversion H; subst. constructor; auto.
+Qed.
+Lemma Forall_skipn' {A} (P : A -> Prop) n (l : list A) : Forall P l -> Forall P (skipn n l).
+Proof.
+  revert l; induction n as [|n IH]; intros l H; cbn; [exact H|].
+  destruct l as [|x l]; [constructor|]. inversion H; subst. auto.
+Qed.
